@@ -123,6 +123,11 @@ def run(rep: engine.Report, tier: str, seed: int):
         g = c["cfg"]
         if f"{g['model']}|{g['mask']}|{g['cutoff']}|{g['tilt']}|{list(g['box'])}|{g['lim']}|{g['d']}" in keys and json.dumps(g, sort_keys=True) not in have:
             sel.append(c)
+    # search ranges at or beyond the box size (windows wholly in the padding) are few: always replayed
+    for c in cases:
+        if max(c["cfg"]["lim"]) >= 600 and json.dumps(c["cfg"], sort_keys=True) not in have:
+            have.add(json.dumps(c["cfg"], sort_keys=True))
+            sel.append(c)
     rep.exhaustive = len(sel) == len(cases)
     results = engine.parallel_replay("harness.props.c04", "replay", sel)
     engine.collect(rep, sel, results, key=lambda c: c["cfg"])
